@@ -30,6 +30,11 @@ FILES = {
     "include/a/pid.h": ["C12"], "include/a/pid_fuzzy.h": ["C12"], "include/a/pid_neuro.h": ["C12"],
     "include/a/crc.h": ["C17"], "include/a/hash.h": ["C17"], "include/a/utf.h": ["C18", "C06"],
 }
+# for large shared files: only these line ranges belong to a claimed property (the rest is C11 / C19 territory, not claimed)
+RANGES = {
+    "include/a/a.h": [(1050, 1125), (1241, 1273), (1320, 1335), (1392, 1408)],
+    "src/math.c": [(565, 572)],
+}
 RUNS = {"C01": 30000, "C02": 30000, "C03": 30000, "C04": 30000, "C05": 40000, "C06": 40000, "C07": 2500, "C12": 40000, "C16": 60000, "C17": 60000, "C18": 80000}
 
 REL = [("<=", "<"), (">=", ">"), ("==", "!="), ("!=", "=="), ("<", "<="), (">", ">=")]
@@ -181,6 +186,8 @@ def main():
                     in_comment = True  # the code before the comment opener is still considered
                 code = code_part(line)
                 if code is None:
+                    continue
+                if rel in RANGES and not any(lo <= i + 1 <= hi for lo, hi in RANGES[rel]):
                     continue
                 for op, new in mutants_of_line(code):
                     if new != code:
